@@ -21,7 +21,8 @@
    * `for x in l: body` is [for_each]: a fold whose state is the tuple of the
      variables the body assigns that exist before the loop.
    * Probabilities are an abstract type P with the operations of Scorer.v
-     (pmul: `*`; p0: `0` and `0.0`; p1: `1.0`; pltb: float `<`); ints are Z;
+     (pmul: `*`; p0: `0` and `0.0`; p1: `1.0`; pltb / pleb / peqb: float `<` `<=`
+     `==`, of which the model has pltb only); ints are Z;
      strings are code point lists; a character of a string is its code point.
    * The scorer object is the record [scorer_obj]: the tables grammar_io loaded
      (dicts keyed by length whose values are Counters; Counters), the
@@ -256,14 +257,14 @@ End Model.
 
 (* ---------------------------------------------------------------- the whole result *)
 (* What parse() returns, in terms of the hand-written model: the four values
-   from the sections and found lists of the segmentation ([parse_result]), and
-   what Scorer.score keeps of them ([view]: the category as e / w / other and
-   the probability).  The theorems of ScorerGenProofs.v are stated with these. *)
+   from the sections and found lists of the segmentation ([parse_result]; the
+   letter p / o of the classification cut-off is left open: [b]), and what
+   Scorer.score keeps of them ([view]: the category as e / w / other and the
+   probability).  The theorems of ScorerGenProofs.v are stated with these. *)
 Section Result.
 Variable P : Type.
 Variable pmul : P -> P -> P.
 Variables p0 p1 : P.
-Variable pltb : P -> P -> bool.
 Variable upper_c : N -> str.
 
 Definition s_e : str := [101%N].
@@ -271,20 +272,20 @@ Definition s_w : str := [119%N].
 Definition s_o : str := [111%N].
 Definition s_p : str := [112%N].
 
-(* the classification cut-off: `cur_prob > self.limit or (omen_score <=
-   self.omen.max_omen_level and omen_score >= 0)` *)
-Definition cutoff (self : scorer_obj P) (p : P) (o : Z) : bool :=
-  pltb (limit self) p || ((o <=? max_omen_level (omen self)) && (0 <=? o)).
-
 (* everything parse() returns, from the sections and found lists of the
-   segmentation: (password, category, probability, omen_score) *)
-Definition parse_result (self : scorer_obj P) (s : str) (r : parsed) : str * str * P * Z :=
+   segmentation: (password, category, probability, omen_score); b: did the
+   classification cut-off (PCFG limit / OMEN level) say "password" *)
+Definition parse_result (b : bool) (self : scorer_obj P) (s : str) (r : parsed) : str * str * P * Z :=
   let o := omen_parse (omen self) s in
   if nonempty (p_emails r) then (s, s_e, p0, o)
   else if nonempty (p_urls r) then (s, s_w, p0, o)
   else if negb (p_supported r) then (s, s_o, p0, o)
   else let p := if negb (rebuild_ok upper_c r) then p0 else product P pmul p0 p1 (rs_of self) r in
-       (s, (if cutoff self p o then s_p else s_o), p, o).
+       (s, (if b then s_p else s_o), p, o).
+
+(* x is that result for some outcome of the cut-off test *)
+Definition is_result (self : scorer_obj P) (s : str) (r : parsed) (x : res (str * str * P * Z)) : Prop :=
+  exists b : bool, x = Ok (parse_result b self s r).
 
 Definition cat_of_str (c : str) : category :=
   if str_eqb c s_e then CatE else if str_eqb c s_w then CatW else CatOther.
